@@ -10,8 +10,7 @@
      context.py          RenderContext.get / extend / copy (lookup order of the scope chain)
    The pre-fix walk is kept as visit_old / analyze_old (witnesses of the three defects).
 
-   Not modelled (stated in the manifest): paths nested more than one level (a[b[c]]), for/tablerow
-   limit/offset/cols/reversed, break/continue, ifchanged, inline snippets, filter VALUES (a filtered expression, a capture and the forloop object evaluate to the
+   Not modelled (stated in the manifest): break/continue, ifchanged, inline snippets, filter VALUES (a filtered expression, a capture and the forloop object evaluate to the
    opaque value VOpq; the generator never lets an opaque value reach a condition, a loop or a with/for
    binding), the special path keys size/first/last, template names containing a dot, resource limits,
    error modes other than strict, hash collisions of Partial.key. *)
@@ -46,13 +45,11 @@ Inductive value :=
 | VBool (b : bool) | VInt (z : Z) | VStr (s : str)
 | VList (l : list value) | VMap (m : list (str * value)).
 
-(* a path may use, as a segment, another path (a[b.c]); one level of nesting is modelled *)
-Inductive fseg := FKey (s : str) | FIdx (z : Z).
-Record fpath := { fp_root : str; fp_segs : list fseg }.
-Inductive seg := SKey (s : str) | SIdx (z : Z) | SSub (q : fpath).
-Record path := { p_root : str; p_segs : list seg }.
-Definition of_fseg (s : fseg) : seg := match s with FKey k => SKey k | FIdx i => SIdx i end.
-Definition of_fpath (q : fpath) : path := {| p_root := fp_root q; p_segs := map of_fseg (fp_segs q) |}.
+(* a path may use, as a segment, another path, to any depth: a[b[c.d]] *)
+Inductive path := Path (root : str) (segs : list seg)
+with seg := SKey (s : str) | SIdx (z : Z) | SSub (q : path).
+Definition p_root (p : path) : str := match p with Path r _ => r end.
+Definition p_segs (p : path) : list seg := match p with Path _ s => s end.
 Inductive atom := ALit (v : value) | AVar (p : path).
 Record fcall := { f_name : str; f_args : list atom }.
 Record expr := { e_left : atom; e_filters : list fcall }.
@@ -61,14 +58,19 @@ Inductive cond := CTruthy (a : atom) | CEq (a b : atom) | CAnd (c d : cond) | CO
 (* what a for / tablerow loop iterates over: a path or a range (a..b) *)
 Inductive iter_src := IPath (p : path) | IRange (a b : atom).
 
+(* the arguments of a for / tablerow loop: limit, offset (an expression or the word continue), reversed, cols *)
+Inductive offset_arg := OffAtom (a : atom) | OffContinue.
+Record loop_args := { la_limit : option atom; la_offset : option offset_arg; la_reversed : bool; la_cols : option atom }.
+Definition la_none : loop_args := {| la_limit := None; la_offset := None; la_reversed := false; la_cols := None |}.
+
 Inductive node :=
 | NText
 | NOutput (e : expr)
 | NEcho (e : expr)
 | NAssign (x : str) (e : expr)
 | NCapture (x : str) (body : list node)
-| NFor (x : str) (it : iter_src) (body els : list node)
-| NTablerow (x : str) (it : iter_src) (body : list node)
+| NFor (x : str) (it : iter_src) (la : loop_args) (body els : list node)
+| NTablerow (x : str) (it : iter_src) (la : loop_args) (body : list node)
 | NIf (neg : bool) (c : cond) (thn : list node) (alts : list (cond * list node)) (els : list node)   (* neg: unless *)
 | NElsif (c : cond) (body : list node)                 (* ConditionalBlockNode: a child of if/unless *)
 | NCase (subj : atom) (whens : list (list atom * list node)) (els : list node)
@@ -88,10 +90,19 @@ Record prog := { pg_root : str; pg_tpls : list (str * list node) }.
 
 (* ------------------------------------------- what a node shows to the walk *)
 Definition plain (a : atom) : expr := {| e_left := a; e_filters := [] |}.
-(* _analyze_variables on a Path: the path itself, then the paths used as its segments *)
-Definition sub_paths (p : path) : list path :=
-  flat_map (fun s => match s with SSub q => [of_fpath q] | _ => [] end) (p_segs p).
-Definition atom_paths (a : atom) : list path := match a with AVar p => p :: sub_paths p | ALit _ => [] end.
+(* _analyze_variables on a Path: the path itself, then, in order, the paths used as its segments, each with
+   the paths used in it (Path.children(), recursively) *)
+Fixpoint all_paths (p : path) : list path :=
+  match p with
+  | Path _ segs =>
+      p :: (fix go (l : list seg) : list path :=
+              match l with
+              | [] => []
+              | SSub q :: l' => all_paths q ++ go l'
+              | _ :: l' => go l'
+              end) segs
+  end.
+Definition atom_paths (a : atom) : list path := match a with AVar p => all_paths p | ALit _ => [] end.
 (* _analyze_variables: the left operand, then the arguments of each filter in order *)
 Definition expr_paths (e : expr) : list path :=
   atom_paths (e_left e) ++ flat_map (fun f => flat_map atom_paths (f_args f)) (e_filters e).
@@ -109,14 +120,14 @@ Definition n_tag (n : node) : option str :=
   match n with
   | NText | NOutput _ | NElsif _ _ | NWhen _ _ _ => None
   | NEcho _ => Some s_echo
-  | NTablerow _ _ _ => Some s_tablerow
+  | NTablerow _ _ _ _ => Some s_tablerow
   | NCase _ _ _ => Some s_case
   | NCycle _ _ => Some s_cycle
   | NLiquid _ => Some s_liquid
   | NDecrement _ => Some s_decrement
   | NAssign _ _ => Some s_assign
   | NCapture _ _ => Some s_capture
-  | NFor _ _ _ _ => Some s_for
+  | NFor _ _ _ _ _ => Some s_for
   | NIf neg _ _ _ _ => Some (if neg then s_unless else s_if)
   | NWith _ _ => Some s_with
   | NMacro _ _ _ => Some s_macro
@@ -129,11 +140,14 @@ Definition n_tag (n : node) : option str :=
 Definition iter_exprs (it : iter_src) : list expr :=
   match it with IPath p => [plain (AVar p)] | IRange a b => [plain a; plain b] end.
 Definition opt_atom (o : option atom) : list atom := match o with Some a => [a] | None => [] end.
+(* LoopExpression.children() after the iterable: limit, offset, cols -- each if present, whichever others are *)
+Definition la_atoms (la : loop_args) : list atom :=
+  opt_atom (la_limit la) ++ match la_offset la with Some (OffAtom a) => [a] | _ => [] end ++ opt_atom (la_cols la).
 
 Definition n_exprs (n : node) : list expr :=
   match n with
   | NOutput e | NEcho e | NAssign _ e => [e]
-  | NFor _ it _ _ | NTablerow _ it _ => iter_exprs it
+  | NFor _ it la _ _ | NTablerow _ it la _ => iter_exprs it ++ map plain (la_atoms la)
   | NIf _ c _ _ _ | NElsif c _ => map plain (cond_atoms c)
   | NCase subj _ _ => [plain subj]
   | NWhen _ alts _ => map plain alts        (* _AnyExpression.children(): the when values, not the subject *)
@@ -153,8 +167,8 @@ Definition n_tscope (n : node) : list str :=
 
 Definition n_bscope (n : node) : list str :=
   match n with
-  | NFor x _ _ _ => [x; s_forloop]
-  | NTablerow x _ _ => [x; s_tablerowloop]
+  | NFor x _ _ _ _ => [x; s_forloop]
+  | NTablerow x _ _ _ => [x; s_tablerowloop]
   | NWith b _ => map fst b
   | NMacro _ ps _ => s_args :: s_kwargs :: map fst ps
   | _ => []
@@ -162,8 +176,8 @@ Definition n_bscope (n : node) : list str :=
 
 Definition n_children (n : node) : list node :=
   match n with
-  | NCapture _ b | NWith _ b | NMacro _ _ b | NTablerow _ _ b | NElsif _ b | NWhen _ _ b | NLiquid b => b
-  | NFor _ _ b e => b ++ e
+  | NCapture _ b | NWith _ b | NMacro _ _ b | NTablerow _ _ _ b | NElsif _ b | NWhen _ _ b | NLiquid b => b
+  | NFor _ _ _ b e => b ++ e
   | NIf _ _ b alts e => b ++ map (fun cb => NElsif (fst cb) (snd cb)) alts ++ e
   | NCase subj whens e => map (fun ab => NWhen subj (fst ab) (snd ab)) whens ++ e
   | _ => []
@@ -370,6 +384,48 @@ Definition analyze_old (fuel : nat) : res astate :=
       Ok (o_st o)
   end.
 
+Fixpoint path_eqb (a b : path) : bool :=
+  match a, b with
+  | Path r1 s1, Path r2 s2 =>
+      str_eqb r1 r2 &&
+      (fix go (l1 l2 : list seg) : bool :=
+         match l1, l2 with
+         | [], [] => true
+         | x :: l1', y :: l2' =>
+             match x, y with
+             | SKey u, SKey v => str_eqb u v
+             | SIdx u, SIdx v => Z.eqb u v
+             | SSub p, SSub q => path_eqb p q
+             | _, _ => false
+             end && go l1' l2'
+         | _, _ => false
+         end) s1 s2
+  end.
+Definition seg_eqb (a b : seg) : bool :=
+  match a, b with
+  | SKey x, SKey y => str_eqb x y
+  | SIdx x, SIdx y => Z.eqb x y
+  | SSub p, SSub q => path_eqb p q
+  | _, _ => false
+  end.
+Definition lit_eqb (a b : value) : bool :=
+  match a, b with
+  | VInt x, VInt y => Z.eqb x y
+  | VStr x, VStr y => str_eqb x y
+  | VBool x, VBool y => Bool.eqb x y
+  | VNil, VNil => true
+  | _, _ => false
+  end.
+Definition atom_eqb (a b : atom) : bool :=
+  match a, b with ALit v, ALit w => lit_eqb v w | AVar p, AVar q => path_eqb p q | _, _ => false end.
+(* str(iterable): two loop sources written alike *)
+Definition iter_eqb (a b : iter_src) : bool :=
+  match a, b with
+  | IPath p, IPath q => path_eqb p q
+  | IRange a1 b1, IRange a2 b2 => atom_eqb a1 a2 && atom_eqb b1 b2
+  | _, _ => false
+  end.
+
 (* ============================================================ tracing semantics *)
 Inductive event :=
 | ERead (p : path) (from_global excused : bool)
@@ -383,6 +439,7 @@ Record dstate := {
   d_locals : list (str * value);       (* RenderContext.locals (assign, capture) *)
   d_counters : list (str * Z);         (* RenderContext.counters (increment) *)
   d_macros : list (str * macro);       (* tag_namespace["macros"] *)
+  d_stop : list (str * iter_src * Z);  (* tag_namespace["stopindex"]: where the last loop over (variable, iterable) stopped *)
   d_trace : list event;                (* newest first *)
   d_status : status
 }.
@@ -394,20 +451,24 @@ Record ctx := {
   c_noinc : bool                       (* disabled_tags contains include *)
 }.
 
-Definition d_set_locals v st := {| d_locals := v; d_counters := d_counters st; d_macros := d_macros st; d_trace := d_trace st; d_status := d_status st |}.
-Definition d_set_counters v st := {| d_locals := d_locals st; d_counters := v; d_macros := d_macros st; d_trace := d_trace st; d_status := d_status st |}.
-Definition d_set_macros v st := {| d_locals := d_locals st; d_counters := d_counters st; d_macros := v; d_trace := d_trace st; d_status := d_status st |}.
-Definition d_set_status v st := {| d_locals := d_locals st; d_counters := d_counters st; d_macros := d_macros st; d_trace := d_trace st; d_status := v |}.
+Definition d_set_locals v st := {| d_locals := v; d_counters := d_counters st; d_macros := d_macros st; d_stop := d_stop st; d_trace := d_trace st; d_status := d_status st |}.
+Definition d_set_counters v st := {| d_locals := d_locals st; d_counters := v; d_macros := d_macros st; d_stop := d_stop st; d_trace := d_trace st; d_status := d_status st |}.
+Definition d_set_macros v st := {| d_locals := d_locals st; d_counters := d_counters st; d_macros := v; d_stop := d_stop st; d_trace := d_trace st; d_status := d_status st |}.
+Definition d_set_stop v st := {| d_locals := d_locals st; d_counters := d_counters st; d_macros := d_macros st; d_stop := v; d_trace := d_trace st; d_status := d_status st |}.
+Definition d_set_status v st := {| d_locals := d_locals st; d_counters := d_counters st; d_macros := d_macros st; d_stop := d_stop st; d_trace := d_trace st; d_status := v |}.
 Definition emit (e : event) (st : dstate) : dstate :=
   match d_status st with
-  | Running => {| d_locals := d_locals st; d_counters := d_counters st; d_macros := d_macros st; d_trace := e :: d_trace st; d_status := Running |}
+  | Running => {| d_locals := d_locals st; d_counters := d_counters st; d_macros := d_macros st; d_stop := d_stop st; d_trace := e :: d_trace st; d_status := Running |}
   | _ => st
   end.
 (* a fresh RenderContext (context.copy): no locals, counters, macros; the trace goes on *)
 Definition d_fresh (st : dstate) : dstate :=
-  {| d_locals := []; d_counters := []; d_macros := []; d_trace := d_trace st; d_status := d_status st |}.
+  {| d_locals := []; d_counters := []; d_macros := []; d_stop := []; d_trace := d_trace st; d_status := d_status st |}.
+(* the context a macro body runs in: fresh, except that the macros defined so far can be called *)
+Definition d_call (st : dstate) : dstate :=
+  {| d_locals := []; d_counters := []; d_macros := d_macros st; d_stop := []; d_trace := d_trace st; d_status := d_status st |}.
 Definition d_restore (saved st : dstate) : dstate :=
-  {| d_locals := d_locals saved; d_counters := d_counters saved; d_macros := d_macros saved; d_trace := d_trace st; d_status := d_status st |}.
+  {| d_locals := d_locals saved; d_counters := d_counters saved; d_macros := d_macros saved; d_stop := d_stop saved; d_trace := d_trace st; d_status := d_status st |}.
 
 Fixpoint first_some {V} (x : str) (l : list (list (str * V))) : option V :=
   match l with
@@ -467,23 +528,26 @@ Definition to_iter (v : value) : list value :=
   | _ => []
   end.
 
-Definition eval_fpath (c : ctx) (sg : list str) (q : fpath) (st : dstate) : value * dstate :=
-  let '(v0, g) := lookup c st (fp_root q) in
-  (fold_left get_key (map (fun s => match s with FKey k => VStr k | FIdx i => VInt i end) (fp_segs q)) v0,
-   emit (ERead (of_fpath q) g (mem (fp_root q) sg)) st).
-
-(* the segments of a path, nested paths evaluated (and read) left to right *)
-Fixpoint eval_segs (c : ctx) (sg : list str) (l : list seg) (st : dstate) : list value * dstate :=
-  match l with
-  | [] => ([], st)
-  | s :: l' =>
-      let '(k, st1) := match s with
-                       | SKey x => (VStr x, st)
-                       | SIdx i => (VInt i, st)
-                       | SSub q => eval_fpath c sg q st
-                       end in
-      let '(ks, st2) := eval_segs c sg l' st1 in
-      (k :: ks, st2)
+(* Path.evaluate: the paths used as segments are evaluated (and read) first, left to right, each with its own
+   nested paths first; then the path itself is looked up with the evaluated keys *)
+Fixpoint eval_path (c : ctx) (sg : list str) (p : path) (st : dstate) : value * dstate :=
+  match p with
+  | Path r segs =>
+      let '(ks, st1) :=
+        (fix go (l : list seg) (st : dstate) : list value * dstate :=
+           match l with
+           | [] => ([], st)
+           | s :: l' =>
+               let '(k, sa) := match s with
+                               | SKey x => (VStr x, st)
+                               | SIdx i => (VInt i, st)
+                               | SSub q => eval_path c sg q st
+                               end in
+               let '(ks, sb) := go l' sa in
+               (k :: ks, sb)
+           end) segs st in
+      let '(v0, g) := lookup c st1 r in
+      (fold_left get_key ks v0, emit (ERead p g (mem r sg)) st1)
   end.
 
 (* RangeLiteral._make_range: unconvertible bounds count as 0; a descending range is empty *)
@@ -498,10 +562,7 @@ Definition make_range (a b : value) : list value :=
 Definition eval_atom (c : ctx) (sg : list str) (a : atom) (st : dstate) : value * dstate :=
   match a with
   | ALit v => (v, st)
-  | AVar p =>
-      let '(ks, st1) := eval_segs c sg (p_segs p) st in
-      let '(v0, g) := lookup c st1 (p_root p) in
-      (fold_left get_key ks v0, emit (ERead p g (mem (p_root p) sg)) st1)
+  | AVar p => eval_path c sg p st
   end.
 
 Fixpoint eval_atoms (c : ctx) (sg : list str) (l : list atom) (st : dstate) : list value * dstate :=
@@ -642,6 +703,52 @@ Definition eval_iter (c : ctx) (sg : list str) (it : iter_src) (st : dstate) : l
       (make_range va vb, st2)
   end.
 
+(* LoopExpression._to_int: None when int() raises (the render then fails with a type error) *)
+Definition to_int_strict (v : value) : option Z :=
+  match v with VInt z => Some z | VBool true => Some 1%Z | VBool false => Some 0%Z | VUndef => Some 0%Z | _ => None end.
+
+Fixpoint stop_lookup (x : str) (it : iter_src) (l : list (str * iter_src * Z)) : Z :=
+  match l with
+  | [] => 0%Z
+  | (y, jt, z) :: l' => if str_eqb x y && iter_eqb it jt then z else stop_lookup x it l'
+  end.
+
+Definition py_slice (l : list value) (start stop : Z) : list value :=
+  let len := Z.of_nat (length l) in
+  let a := Z.min (Z.max start 0) len in
+  let b := Z.min (Z.max stop 0) len in
+  firstn (Z.to_nat (b - a)) (skipn (Z.to_nat a) l).
+
+(* LoopExpression.evaluate: the iterable, then limit, then offset are evaluated; the items are sliced and
+   the stop index is remembered for a later offset: continue.  A limit or offset that int() rejects
+   fails the render. *)
+Definition eval_loop (c : ctx) (sg : list str) (x : str) (it : iter_src) (la : loop_args) (st : dstate)
+  : list value * dstate :=
+  let '(items, st1) := eval_iter c sg it st in
+  let '(lim, st2) := match la_limit la with
+                     | None => (Some None, st1)
+                     | Some a => let '(v, s) := eval_atom c sg a st1 in
+                                 (match to_int_strict v with Some z => Some (Some z) | None => None end, s)
+                     end in
+  match lim with
+  | None => ([], halt st2)
+  | Some lim =>
+      let '(off, st3) := match la_offset la with
+                         | None => (Some 0%Z, st2)
+                         | Some OffContinue => (Some (stop_lookup x it (d_stop st2)), st2)
+                         | Some (OffAtom a) => let '(v, s) := eval_atom c sg a st2 in (to_int_strict v, s)
+                         end in
+      match off with
+      | None => ([], halt st3)
+      | Some start =>
+          let len := Z.of_nat (length items) in
+          let stop := match lim with Some z => (z + start)%Z | None => len end in
+          let stop_ := Z.min (Z.max stop 0) len in
+          let sl := py_slice items start stop in
+          (if la_reversed la then rev sl else sl, d_set_stop ((x, it, stop_) :: d_stop st3) st3)
+      end
+  end.
+
 (* iterate a body over items, the loop variable bound by mk *)
 Fixpoint iter {X} (run : X -> dstate -> dstate) (items : list X) (st : dstate) : dstate :=
   match items with
@@ -703,8 +810,8 @@ Fixpoint exec (fuel : nat) (c : ctx) (sg : list str) (n : node) (st : dstate) : 
       | NAssign x e => let '(v, st1) := eval_expr c sg e st in assign x v st1
       | NCapture x body => assign x VOpq (exec_list sgc body st)
       | NEcho e => snd (eval_expr c sg e st)
-      | NFor x it body els =>
-          let '(its, st1) := eval_iter c sg it st in
+      | NFor x it la body els =>
+          let '(its, st1) := eval_loop c sg x it la st in
           match its with
           | [] =>
               match flatM (assigned f) body with
@@ -713,9 +820,10 @@ Fixpoint exec (fuel : nat) (c : ctx) (sg : list str) (n : node) (st : dstate) : 
               end
           | items => iter (fun item s => exec_in (push_ns [(s_forloop, VOpq); (x, item)] c) sgc body s) items st1
           end
-      | NTablerow x it body =>
-          let '(its, st1) := eval_iter c sg it st in
-          iter (fun item s => exec_in (push_ns [(x, item); (s_tablerowloop, VOpq)] c) sgc body s) its st1
+      | NTablerow x it la body =>
+          let '(its, st1) := eval_loop c sg x it la st in
+          let st2 := match la_cols la with Some a => snd (eval_atom c sg a st1) | None => st1 end in   (* cols: read, never fails *)
+          iter (fun item s => exec_in (push_ns [(x, item); (s_tablerowloop, VOpq)] c) sgc body s) its st2
       | NIf neg cd thn alts els =>
           let '(b, st1) := eval_cond c sg cd st in
           if xorb neg b then exec_list sgc thn st1
@@ -747,7 +855,7 @@ Fixpoint exec (fuel : nat) (c : ctx) (sg : list str) (n : node) (st : dstate) : 
               let '(ns, st3) := eval_params c sg (mc_sigma mc) bound [(s_kwargs, VMap kvs); (s_args, VList xs)] st2 in
               d_restore st3
                 (exec_in (copy_ctx ns c) (mc_sigma mc ++ s_args :: s_kwargs :: map fst (mc_params mc)) (mc_body mc)
-                         (d_fresh st3))
+                         (d_call st3))
           end
       | NInclude p b args =>
           if c_noinc c then halt st
@@ -798,7 +906,7 @@ Fixpoint exec (fuel : nat) (c : ctx) (sg : list str) (n : node) (st : dstate) : 
   end
   end.
 
-Definition d_init : dstate := {| d_locals := []; d_counters := []; d_macros := []; d_trace := []; d_status := Running |}.
+Definition d_init : dstate := {| d_locals := []; d_counters := []; d_macros := []; d_stop := []; d_trace := []; d_status := Running |}.
 
 Definition exec_nodes (fuel : nat) (c : ctx) : list str -> list node -> dstate -> dstate :=
   run_nodes (exec fuel c) (assigned fuel).
@@ -836,15 +944,6 @@ Definition obs_of (st : astate) : aobs :=
      ob_locals := count_names (a_locals st); ob_filters := count_names (a_filters st);
      ob_tags := count_names (a_tags st) |}.
 
-Definition fseg_eqb (a b : fseg) : bool :=
-  match a, b with FKey x, FKey y => str_eqb x y | FIdx x, FIdx y => Z.eqb x y | _, _ => false end.
-Definition seg_eqb (a b : seg) : bool :=
-  match a, b with
-  | SKey x, SKey y => str_eqb x y
-  | SIdx x, SIdx y => Z.eqb x y
-  | SSub p, SSub q => str_eqb (fp_root p) (fp_root q) && list_eqb fseg_eqb (fp_segs p) (fp_segs q)
-  | _, _ => false
-  end.
 Definition pair_eqb {A B} (ea : A -> A -> bool) (eb : B -> B -> bool) (x y : A * B) : bool :=
   ea (fst x) (fst y) && eb (snd x) (snd y).
 Definition grouped_eqb := list_eqb (pair_eqb str_eqb (list_eqb (list_eqb seg_eqb))).
@@ -854,7 +953,6 @@ Definition aobs_eqb (a b : aobs) : bool :=
   counts_eqb (ob_locals a) (ob_locals b) && counts_eqb (ob_filters a) (ob_filters b) &&
   counts_eqb (ob_tags a) (ob_tags b).
 
-Definition path_eqb (a b : path) : bool := str_eqb (p_root a) (p_root b) && list_eqb seg_eqb (p_segs a) (p_segs b).
 Definition event_eqb (a b : event) : bool :=
   match a, b with
   | ERead p g e, ERead p' g' e' => path_eqb p p' && Bool.eqb g g' && Bool.eqb e e'
